@@ -16,8 +16,11 @@ CHECKS = {
         text=("Theorems (Props/C01.lean): for every tree (any depth/arity/sign/value/Int bounds, no compound pre-fixed), if x "
               "agrees with the leaf assignment and carries each sub-proposition's evaluated truth value, every big-M row is "
               "satisfied without asserting the top node (enc_feasible) and, with the top node asserted, all rows hold iff the "
-              "model evaluates to 1 (enc_active_iff); the extension exists (agrees_ext); the executable row list means the row "
-              "predicate (rows_spec). Tie: the model's row set and column list are compared with to_ge_polyhedron (both "
+              "model evaluates to 1 (enc_active_iff); the extension exists (agrees_ext) for coherent models (one id, one value), "
+              "and validation gives coherence (validated_coherent, built on C10: every occurrence of an id has the same sign, "
+              "value and child ids, and by induction on the sub-tree size the children evaluate alike) — "
+              "encoding_agrees_with_evaluation states the property in one theorem for models that errors() accepts; the "
+              "executable row list means the row predicate (rows_spec). Tie: the model's row set and column list are compared with to_ge_polyhedron (both "
               "`active` settings, rows from puan-rspy) on seeded random validated models; oracle: in-bounds assignments "
               "extended by the real evaluate_propositions and tested on the real matrix with Python ints."),
         note="Rows are compared as a set keyed by column id. puan-rspy's row construction is outside /repo; its observable output is what is modelled.",
@@ -139,11 +142,15 @@ CHECKS = {
               "distinct_ids_accepted — a model in which one id always means one and the same sub-proposition (shared objects, "
               "identical copies, or pairwise distinct ids) and no node lists a child twice passes both ambivalence checks and "
               "the duplicate-edge check (flatten()'s de-duplication leaves pairwise distinct ids, edges of distinct parents "
-              "differ), hence is accepted when its id graph is acyclic. Tie: errors() compared with the model (accept/"
+              "differ), hence is accepted when its id graph is acyclic; the cycle clause itself: cycle_detected / "
+              "errors_nil_acyclic (the model's bounded search finds every circular reference — each round that does not end "
+              "the search expands a node not expanded before, so entries + 1 rounds suffice — hence an accepted model has no "
+              "id that reaches itself), tree_acyclic / tree_kids_nodup / tree_with_distinct_ids_accepted (a tree with pairwise "
+              "distinct ids has no cycle and lists no child twice: accepted, no hypothesis left). Tie: errors() compared with the model (accept/"
               "reject and error kinds) on a valid stream and an adversarial stream (duplicated child, reused ids with "
               "different bounds/sign/value/children, equal-sum bounds, -1/-2 bounds, '-' in ids, leaf named like a compound, "
               "self reference, cycles, generated-id coincidences across parents, same-id nodes whose children swap bounds of equal sum); oracle: an independent validator implementing the statement on the snapshot."),
-        note="The cycle clause (id graph with dict override, decided by graphlib) is modelled (reachability with fuel) and tied, not proved: acyclicity enters the completeness theorems as a hypothesis. Defects D4 and D5 were found by this check and repaired.",
+        note="The cycle clause (id graph with dict override) is a bounded search in the model; that the bound suffices and that trees with distinct ids are acyclic are theorems since session 4; that graphlib reports a cycle exactly when the model's search does is tied by the correspondence, not proved. Defects D4 and D5 were found by this check and repaired.",
         technique="Lean 4 theorem (list lemmas over the non-deduplicating walk) + differential correspondence on adversarial models + independent validator",
         ref="§4 C10"),
     "C11": dict(
